@@ -13,7 +13,7 @@ impl ProgProperty for C04 {
         "C04"
     }
     fn rule(&self) -> String {
-        "generated programs (raw / structured idioms / roaming / deep nests / candidate infinite loops, see DESIGN 2.5) x input x width, run by InplaceInterpreter::execute and compared event-for-event (interleaving included) with the reference interpreter; a case is non-trivial if the canonical run skips a loop that itself contains a loop, or wraps a cell, or reads past the end of input; distinct = distinct (program, input, width)".into()
+        "generated programs (raw / structured idioms / roaming / deep nests / candidate infinite loops, see DESIGN 2.5) x input x width, run by InplaceInterpreter::execute and compared event-for-event (interleaving included) with the reference interpreter; a case is non-trivial if the canonical run skips a loop that itself contains a loop, or wraps a cell, or reads past the end of input; distinct = distinct (program, input, width) A third of the halting programs at 16/32 bit and two thirds at 64 bit carry the upper-bits probe (family `...+probe`): an appended epilogue takes the canonical final value of every small-magnitude cell out again, counts the cells in which anything is left and prints the count (0 canonically), which makes the bits above the low byte observable.".into()
     }
     fn assumptions(&self) -> Vec<String> {
         vec!["the reference interpreter and the in-place interpreter share no code".into()]
@@ -37,6 +37,9 @@ impl ProgProperty for C04 {
         }
         stats.max("max-dynamic-nesting", r.max_depth as u64);
         r.skipped_nested > 0 || r.wraps > 0 || r.eof_reads > 0
+    }
+    fn probe_upper_bits(&self) -> bool {
+        true
     }
     fn floors(&self, tier: Tier) -> Vec<(&'static str, u64)> {
         let q = if tier == Tier::Quick { 1 } else { 30 };
